@@ -28,7 +28,10 @@ RUNTIME_SRCS = ['src/runtime/builder.c', 'src/runtime/emitter.c', 'src/runtime/r
                 'src/runtime/verifier.c', 'src/runtime/json_parser.c', 'src/runtime/json_printer.c']
 INCS = ['-I%s/include' % REPO]
 COMPILER_INCS = INCS + ['-I%s/config' % REPO, '-I%s/external' % REPO, '-I%s/src/compiler' % REPO]
-SAN = ['-fsanitize=address,undefined', '-fno-sanitize=nonnull-attribute', '-fno-sanitize-recover=all', '-fno-omit-frame-pointer']
+# UBSan exclusions: memset/memcpy(NULL, …, 0) (nonnull-attribute) and the digit-pair stores of pprintint.h into the
+# caller's char buffer through uint16_t* (alignment, output side only) are outside the 20 properties.
+SAN = ['-fsanitize=address,undefined', '-fno-sanitize=nonnull-attribute', '-fno-sanitize-recover=all', '-fno-omit-frame-pointer',
+       '-fsanitize-ignorelist=' + os.path.join(ROOT, 'harness', 'ubsan_ignore.txt')]
 
 
 class CheckError(Exception):
@@ -116,6 +119,8 @@ class Ctx:
         shutil.rmtree(self.bdir, ignore_errors=True)
         os.makedirs(self.bdir, exist_ok=True)
         os.makedirs(os.path.join(ROOT, 'replays'), exist_ok=True)
+        if not replay:
+            for old in glob.glob(os.path.join(ROOT, 'replays', pid + '-*.json')): os.remove(old)
         os.makedirs(os.path.join(ROOT, 'evidence'), exist_ok=True)
         self.rng = random.Random(seed)
         self.violations = []      # dicts: key, what, replay(dict), kind
